@@ -144,7 +144,12 @@ def from_decimal(data: decimal.Decimal):
         if not data.as_tuple().exponent:
             # integer
             return int(data)
-        return float(data)
+        number = float(data)
+        if not number and data:
+            # a non-zero value below the float range would become 0.0: keep it as text,
+            # like the values beyond the safe integer range
+            return str(data)
+        return number
     # infinity / NaN
     return str(data)
 
